@@ -159,6 +159,10 @@ var dataQueries = []struct {
 	{"from {P}@{B} | sort this", true},
 	{"from {P}", false},
 	{"from {P}@{B} | count()", true},
+	{"from {P}@{B} | put x:=k+1", false},
+	{"from {P}@{B} | yield s", false},
+	{"from {P}@{B} | k >= 10", false},
+	{"from {P}@{B} | cut k,s", false},
 	{"from {P}@{B} | summarize c:=count(), m:=max(v)", true},
 	{"from {P}@{B} | count() by s | sort this", true},
 	{"from {P}@{B} | k >= 10 | sort this", true},
@@ -237,7 +241,7 @@ func genQuery(t *rapid.T, op *Op) {
 
 func genCase(t *rapid.T) Case {
 	c := Case{
-		Parallel:    rapid.SampledFrom([]int{0, 1, 1, 2}).Draw(t, "par"),
+		Parallel:    rapid.SampledFrom([]int{0, 1, 1, 1, 2}).Draw(t, "par"),
 		BatchValues: rapid.SampledFrom([]int{1, 2, 3, 100}).Draw(t, "batchvalues"),
 	}
 	maxOps, maxBatch := 12, 8
@@ -265,21 +269,21 @@ func genCase(t *rapid.T) Case {
 			Pool:   rapid.IntRange(0, 3).Draw(t, "pool"),
 			Branch: rapid.IntRange(0, 3).Draw(t, "branch"),
 		}
-		k := rapid.IntRange(0, 39).Draw(t, "opkind")
+		k := rapid.IntRange(0, 49).Draw(t, "opkind")
 		if i == 0 {
 			k = 0
 		} else if i == 1 {
-			k = 4
+			k = 5
 		}
 		switch {
-		case k <= 1:
+		case k <= 0:
 			op.Kind = "createpool"
 			op.Key = rapid.SampledFrom([]string{"k", "k", "k", "s", "this", "n.a"}).Draw(t, "key")
 			op.Desc = rapid.Bool().Draw(t, "desc")
-			op.Thresh = rapid.SampledFrom([]int64{0, 0, 40, 100}).Draw(t, "thresh")
-			op.Stride = rapid.SampledFrom([]int{0, 1, 16}).Draw(t, "stride")
+			op.Thresh = rapid.SampledFrom([]int64{0, 40, 40, 100}).Draw(t, "thresh")
+			op.Stride = rapid.SampledFrom([]int{0, 1, 1, 1, 16}).Draw(t, "stride")
 			op.Dup = i > 0 && rapid.IntRange(0, 5).Draw(t, "dup") == 0
-		case k <= 11:
+		case k <= 14:
 			op.Kind = "load"
 			op.Batch = rapid.IntRange(0, nb-1).Draw(t, "batch")
 			op.Via = rapid.SampledFrom([]string{"api", "api", "zng", "zson", "zjson", "json", "csv", "vng", "auto"}).Draw(t, "via")
@@ -297,48 +301,48 @@ func genCase(t *rapid.T) Case {
 			case 1:
 				op.Bad = "meta"
 			}
-		case k <= 13:
+		case k <= 17:
 			op.Kind = "delete"
 			op.Pick = rapid.SliceOfN(rapid.IntRange(0, 7), 1, 3).Draw(t, "pick")
 			op.Stale = rapid.IntRange(0, 7).Draw(t, "stale") == 0
-		case k <= 15:
+		case k <= 20:
 			op.Kind = "deletewhere"
 			op.Pred = rapid.SampledFrom(preds).Draw(t, "pred")
-		case k <= 17:
+		case k <= 23:
 			op.Kind = "compact"
 			op.Pick = rapid.SliceOfN(rapid.IntRange(0, 7), 2, 4).Draw(t, "pick")
 			op.Vectors = rapid.Bool().Draw(t, "vec")
-		case k == 18:
+		case k == 24:
 			op.Kind = "addvec"
 			op.Pick = rapid.SliceOfN(rapid.IntRange(0, 7), 1, 2).Draw(t, "pick")
-		case k == 19:
+		case k == 25:
 			op.Kind = "delvec"
 			op.Pick = rapid.SliceOfN(rapid.IntRange(0, 7), 1, 2).Draw(t, "pick")
-		case k == 20:
+		case k == 26:
 			op.Kind = "vacuum"
 			op.Dry = rapid.Bool().Draw(t, "dry")
-		case k <= 22:
+		case k <= 28:
 			op.Kind = "branch"
 			op.Other = rapid.IntRange(0, 3).Draw(t, "src")
 			op.At = rapid.SampledFrom([]int{0, 0, 0, 1, 2}).Draw(t, "at")
 			op.Dup = rapid.IntRange(0, 7).Draw(t, "dup") == 0
-		case k == 23:
+		case k == 29:
 			op.Kind = "dropbranch"
-		case k <= 25:
+		case k <= 31:
 			op.Kind = "merge"
 			op.Other = rapid.IntRange(0, 3).Draw(t, "into")
-		case k == 26:
+		case k == 32:
 			op.Kind = "revert"
 			op.At = rapid.SampledFrom([]int{0, 0, 1, 2, 3}).Draw(t, "at")
-		case k == 27:
+		case k == 33:
 			op.Kind = "renamepool"
 			op.Dup = rapid.IntRange(0, 5).Draw(t, "dup") == 0
-		case k == 28:
+		case k == 34:
 			op.Kind = "droppool"
-		case k <= 31:
+		case k <= 38:
 			op.Kind = "lateerr"
 			op.Pick = []int{rapid.SampledFrom([]int{0, 1, 2, 7, 7, 7}).Draw(t, "pick")}
-			q := rapid.SampledFrom([]string{"from {P}@{B}", "from {P}@{B}", "from {P}@{B} | sort this", "from {P}@{B} | count()", "from {P}@{B} | k >= 0"}).Draw(t, "lq")
+			q := rapid.SampledFrom([]string{"from {P}@{B}", "from {P}@{B}", "from {P}@{B}", "from {P}@{B} | yield s", "from {P}@{B} | sort this", "from {P}@{B} | count()", "from {P}@{B} | k >= 0"}).Draw(t, "lq")
 			op.Query = q
 			op.Raws = genRaws(t)
 		default:
